@@ -31,7 +31,20 @@ def c21(tier, seed):
     # the real Core.ProcessSender: every received message is released (Done) exactly once whatever processing does
     jobs.append(J(WORKER, "VerifB21bMessagesReleased", msgs=2, procs=1, max_paths=20000))
     jobs.append(J(WORKER, "VerifB21bMessagesReleased", msgs=2 if q else 3, procs=2, max_paths=200000))
+    # B21c: the real (*Basic).Execute of two workers wired into a cycle like pipeline.Build does (real mediums, Broadcast,
+    # ProcessSender, Cleanup, CycleGroup/Membership/StatusPool, createWorker's MsgFunc plumbing). cancel / hold / panic / stop
+    # are the ranges of the forked environment choices: event at which the request is cancelled, event at which the
+    # processing goroutine is held while everybody else runs on, Interpret call that panics, messages the consumer reads.
+    # A run has at most 14 (chain) / 16 (ring, fan) events, so cancel=hold=14/16 covers every event of every run.
+    jobs.append(J(WORKER, "VerifB21cExecute", graph="chain", cancel=14, hold=14, max_paths=20000))
+    jobs.append(J(WORKER, "VerifB21cExecute", graph="fan", chunk=2, procs=2, cap=1, cancel=10, hold=10, max_paths=20000))
+    jobs.append(J(WORKER, "VerifB21cExecute", graph="chain", panic=8, hold=8, max_paths=20000))
+    jobs.append(J(WORKER, "VerifB21cExecute", graph="chain", cancel=6, hold=6, stop=3, max_paths=20000))
     if not q:
+        jobs.append(J(WORKER, "VerifB21cExecute", graph="ring", cancel=16, hold=16, max_paths=200000))
+        jobs.append(J(WORKER, "VerifB21cExecute", graph="fan", cancel=16, hold=16, max_paths=200000))
+        jobs.append(J(WORKER, "VerifB21cExecute", graph="chain", cancel=8, hold=8, sched=4, max_paths=200000))
+        jobs.append(J(WORKER, "VerifB21cExecute", graph="ring", cancel=6, hold=6, panic=8, max_paths=200000))
         jobs.append(J(WORKER, "VerifB21CycleTeardown", members=2, budget=1, hops=1, max_paths=600000, job_timeout_s=3000))
         jobs.append(J(WORKER, "VerifB21CycleTeardown", members=3, budget=0, hops=1, max_paths=600000, job_timeout_s=3000))
     return jobs
@@ -46,10 +59,10 @@ _SCHED_ASSUME = [
 SPEC = {
     "C21": {
         "jobs": c21,
-        "level_text": "bounded exploration of symbolic schedules of the real cycle-teardown code (track.StatusPool, track.Reporter, worker.Membership, worker.CycleGroup.Join): per cycle member a MAIN thread (forward input with Inc-before-enqueue, SignalReady, WaitForAllReady, leader-first ordered clean-up through Sleep/Wake) and a CYCLIC thread (drain inbox, optionally forward, Dec) mirror Basic.Execute; the thread to run at each scheduling point is a forked solver variable. Obligations on every schedule: WaitForAllReady returns only when all members signalled and no message is in flight; nothing is enqueued on a cleaned-up inbox; every inbox is empty at the end; every thread finishes (no lost wake-up). Counterexample schedules replay on the real code through verifhook points. (B21b) the real Core.ProcessSender (processing goroutines, hand-over channel, deferred drain) on a harness sender: per message the processor succeeds / fails / fails with a cancellation error / panics, the request is cancelled before a solver-chosen delivery; afterwards every delivered message has been released exactly once and the sender is drained - a message that is never released keeps its cycle group's in-flight count above zero for ever.",
-        "level_note": "bounds: 2 members (4 threads), 0..1 initial messages per member (solver-chosen), 1 forwarding hop, non-preemptive schedules (budget 0) in quick; budget 1 and 3 members in thorough. The message plumbing (Inc before enqueue, Dec on Done) is mirrored by the harness from pipeline.createWorker's MsgFunc, not executed from it; mediums and the interpreter are outside. B21b: 2 (3) messages, 1-2 processing goroutines under the engine's cooperative schedule; an error reported by the worker cancels the request (what Pipeline.Recv/Close do).",
+        "level_text": "bounded exploration of symbolic schedules of the real cycle-teardown code (track.StatusPool, track.Reporter, worker.Membership, worker.CycleGroup.Join): per cycle member a MAIN thread (forward input with Inc-before-enqueue, SignalReady, WaitForAllReady, leader-first ordered clean-up through Sleep/Wake) and a CYCLIC thread (drain inbox, optionally forward, Dec) mirror Basic.Execute; the thread to run at each scheduling point is a forked solver variable. Obligations on every schedule: WaitForAllReady returns only when all members signalled and no message is in flight; nothing is enqueued on a cleaned-up inbox; every inbox is empty at the end; every thread finishes (no lost wake-up). Counterexample schedules replay on the real code through verifhook points. (B21b) the real Core.ProcessSender (processing goroutines, hand-over channel, deferred drain) on a harness sender: per message the processor succeeds / fails / fails with a cancellation error / panics, the request is cancelled before a solver-chosen delivery; afterwards every delivered message has been released exactly once and the sender is drained - a message that is never released keeps its cycle group's in-flight count above zero for ever. (B21c) the real (*Basic).Execute of two Basic workers that form a cycle, wired the way pipeline.Build / createWorker wire them: the weighted graph of `org#member: [user, team#member]` / `team#member: [user, org#member]` is built with the language module's own AddNode/AddEdge/AssignWeights (the member edges carry the real tuple-cycle mark), one CycleGroup (real Join / Membership / track.StatusPool), real mediums through DefaultMediumFunc (QueueMedium on the cyclical edges, ChannelMedium for the inputs and the output), real Core.Broadcast / send / ProcessSender / Cleanup / MessagePool, createWorker's MsgFunc closure (Inc before enqueue on a cyclical edge, Dec chained into the Done callback) reproduced statement by statement, a harness Interpreter (finite successor relation on 4 values; its result rows ignore ctx like an already fetched datastore page) and the pipeline consumer (Pipeline.Recv/Close: read output, cancel on reported error, cancel + drain + wait). Forked per path: which non-cyclical inputs carry a message (and which value), the event (k-th Interpret call / k-th row handed out) at which the request is cancelled, the event at which the processing goroutine is held until the other goroutines have run as far as they can, the Interpret call that panics, how many messages the consumer reads before it closes the pipeline. Obligations on every path: both Execute calls return and no goroutine stays blocked; no runtime panic (send on a closed medium) and nothing on Core.Errors except the one injected interpreter panic; no listener is closed while a cyclical message is unreleased or a non-cyclical input still holds a message; every message created (pool or input) is released exactly once; the output holds no duplicate and only derivable values; without cancellation/panic/early stop the output equals the least fixed point of the successor relation over the inputs (computed independently in the harness).",
+        "level_note": "bounds: 2 members (4 threads), 0..1 initial messages per member (solver-chosen), 1 forwarding hop, non-preemptive schedules (budget 0) in quick; budget 1 and 3 members in thorough. The message plumbing (Inc before enqueue, Dec on Done) is mirrored by the harness from pipeline.createWorker's MsgFunc, not executed from it; mediums and the interpreter are outside. B21b: 2 (3) messages, 1-2 processing goroutines under the engine's cooperative schedule; an error reported by the worker cancels the request (what Pipeline.Recv/Close do). B21c: 2 members (B joins last = leader), 0..1 initial message per member (A: v0; B: v0 or v1), successor graphs chain v0>v1>v2>v3, ring v0>v1>v2>v0 (terminates by deduplication only), fan v0>{v1,v2}>v3; ChunkSize 1-2, NumProcs 1-2, buffer capacity 1-2; cancel-at-event and hold-at-event range over 0..14 (chain; every event of every run, a run has <= 14) in quick, 0..16 on ring/fan in thorough; panic at call 1..8; consumer stops after 1..3 messages. Goroutines run under the engine's deterministic cooperative scheduler (run until blocked, every select is a round-robin yield point, oldest runnable first); the held goroutine is released by the youngest goroutine after 40 yields; thorough additionally forks the first 4 selects that have several ready cases (vt.SchedChoices). This is ONE canonical interleaving per choice vector (plus the forked selects), not all interleavings - the schedule-exhaustive part of C21 is B21 on the teardown kernel. Clean-path models are re-run natively (real goroutines; hold = 20 ms sleep).",
         "assumptions": _SCHED_ASSUME,
-        "outside": ["mediums / message pool / interpreter", "more than 3 members", "context cancellation during the ordered teardown itself", "preemptive schedules of ProcessSender's goroutines"],
+        "outside": ["the production interpreter / datastore (B21c uses a finite harness interpreter)", "Terminal / Wildcard / Intersection / Difference workers and cycles of more than 2 Basic members under the real Execute (3 members only in the B21 kernel model)", "more than 3 members", "context cancellation during the ordered teardown itself", "preemptive schedules of the real Execute / ProcessSender goroutines beyond the forked selects (B21c explores one cooperative interleaving per environment choice)", "growth of the cyclical queue mediums under load (a handful of messages per run; mpmc growth itself is C22)"],
     },
     "C22": {
         "jobs": c22,
